@@ -5,8 +5,12 @@ import (
 	"errors"
 	"fmt"
 	"io"
+	"seehuhn.de/go/postscript/funit"
+	"seehuhn.de/go/sfnt/cff"
+	"sort"
 	"sync"
 	"time"
+	"verif/refsfnt"
 
 	"golang.org/x/image/font/gofont/goregular"
 
@@ -125,6 +129,41 @@ type c18Font struct {
 	font *sfnt.Font
 	file []byte
 	end  int // end of the last table's data
+	// large: the file is too long for every fault point to be tried; the fault points are the table and
+	// 64 KiB boundaries (+-1) of the output, see c18Points
+	large bool
+}
+
+// c18Points: the fault points tried for a large output: 0..16, every multiple of 64 KiB and the start and end of
+// every table (each with its two neighbours), the last 16 offsets and the length itself.
+func c18Points(out []byte) []int {
+	set := map[int]bool{}
+	add := func(k int) {
+		for _, d := range []int{-1, 0, 1} {
+			if k+d >= 0 && k+d <= len(out) {
+				set[k+d] = true
+			}
+		}
+	}
+	for k := 0; k <= 16; k++ {
+		add(k)
+		add(len(out) - k)
+	}
+	for k := 0; k <= len(out); k += 1 << 16 {
+		add(k)
+	}
+	if cont, err := refsfnt.Walk(out); err == nil {
+		for _, rec := range cont.Records {
+			add(int(rec.Offset))
+			add(int(rec.Offset + rec.Length))
+		}
+	}
+	var pts []int
+	for k := range set {
+		pts = append(pts, k)
+	}
+	sort.Ints(pts)
+	return pts
 }
 
 var (
@@ -184,8 +223,22 @@ func c18Fonts(thorough bool) []*c18Font {
 		add("cff-6", cf)
 		ci, _ := FontFromChoices(gen.FontOpts{NoMeta: true}, 2, 2, 2, 1, 1, 3, 2, 1, 0)
 		add("cid-6", ci)
+		// a font with a table of more than 2 MiB (36 glyphs with 60000 bytes of instructions each)
+		big, _ := FontFromChoices(gen.FontOpts{NoMeta: true, NoLayout: true}, 0, 1, 2, 2, 1)
+		bo := *big.Outlines.(*glyf.Outlines)
+		bo.Glyphs = append(glyf.Glyphs{}, bo.Glyphs...)
+		bo.Widths = append([]funit.Int16{}, bo.Widths...)
+		bo.Names = nil
+		for i := 0; i < 36; i++ {
+			body := append([]byte{0, 0, 60000 >> 8, 60000 & 0xFF}, make([]byte, 60000)...)
+			bo.Glyphs = append(bo.Glyphs, &glyf.Glyph{Rect16: funit.Rect16{URx: 10, URy: 10}, Data: glyf.SimpleGlyph{NumContours: 1, Encoded: append(body, 0x31)}})
+			bo.Widths = append(bo.Widths, funit.Int16(500+i))
+		}
+		big.Outlines = &bo
+		add("glyf-large", big)
+		c18Corpus[len(c18Corpus)-1].large = true
 	})
-	if thorough && len(c18Corpus) == 6 {
+	if thorough && len(c18Corpus) == 7 {
 		f, err := sfnt.Read(bytes.NewReader(goregular.TTF))
 		if err != nil {
 			explore.Fatal("C18: go regular: %v", err)
@@ -204,6 +257,47 @@ var c18Modes = []string{
 	// a destination whose failure is reported as io.ErrShortWrite, persistently (a sink with a quota, a
 	// bufio.Writer after a short write underneath)
 	"Write/ErrShortWrite", "WritePDF/ErrShortWrite", "cff.Write/ErrShortWrite",
+	// bare CFF data (as embedded in PDF files), cut short / read through a source that starts failing
+	"cff.Read/truncated", "cff.Read/fault",
+}
+
+// seekFaultReader is a seekable source of known size that fails (not with EOF) on any read touching offset >= k.
+type seekFaultReader struct {
+	data     []byte
+	k        int
+	pos      int64
+	injected bool
+}
+
+func (r *seekFaultReader) Size() int64 { return int64(len(r.data)) }
+func (r *seekFaultReader) Seek(off int64, whence int) (int64, error) {
+	switch whence {
+	case io.SeekCurrent:
+		off += r.pos
+	case io.SeekEnd:
+		off += int64(len(r.data))
+	}
+	if off < 0 {
+		return r.pos, errors.New("negative position")
+	}
+	r.pos = off
+	return off, nil
+}
+func (r *seekFaultReader) Read(p []byte) (int, error) {
+	if r.pos >= int64(len(r.data)) {
+		return 0, io.EOF
+	}
+	if len(p) == 0 {
+		return 0, nil
+	}
+	lim := int64(min(r.k, len(r.data)))
+	if r.pos >= lim {
+		r.injected = true
+		return 0, errInjected
+	}
+	n := copy(p, r.data[r.pos:lim])
+	r.pos += int64(n)
+	return n, nil
 }
 
 func init() {
@@ -213,6 +307,7 @@ func init() {
 		r.Assume = []string{
 			"writers fail permanently once they have failed; short writes are reported together with an error (io.Writer contract)",
 			"corpus: generated glyf, CFF and CID-keyed fonts (quick), plus Go Regular (thorough)",
+			"for the one large font (a glyf table of more than 2 MiB) the fault points are the table and 64 KiB boundaries with their neighbours and the first and last 16 offsets, not every offset",
 		}
 		fonts := c18Fonts(!r.Quick())
 		r.Explore(explore.Config{Name: "C18.faults"}, "font x mode x fault offset, all uniform", func(c *explore.Ctx) {
@@ -221,7 +316,7 @@ func init() {
 			mode := c.Choose(len(c18Modes), "mode")
 			mname := c18Modes[mode]
 			var werr error
-			if mode >= 11 {
+			if mode >= 11 && mode <= 13 {
 				mode, werr = []int{1, 3, 5}[mode-11], io.ErrShortWrite
 			}
 			isCFF := fo.font.IsCFF()
@@ -244,7 +339,7 @@ func init() {
 					}
 				}
 				ref = buf.Bytes()
-			case 4, 5:
+			case 4, 5, 14, 15:
 				if !isCFF {
 					c.Skip("cff.Write on a glyf font")
 				}
@@ -257,7 +352,13 @@ func init() {
 			default:
 				ref = fo.file
 			}
-			k := c.Choose(len(ref)+1, "fault offset")
+			var k int
+			if fo.large {
+				pts := c18Points(ref)
+				k = pts[c.Choose(len(pts), "fault offset (table and 64 KiB boundaries)")]
+			} else {
+				k = c.Choose(len(ref)+1, "fault offset")
+			}
 			c.Sample(func() any {
 				return map[string]any{"font": fo.name, "mode": mname, "fault_offset": k, "file_len": len(ref)}
 			})
@@ -339,6 +440,39 @@ func init() {
 					c.Fail("C18.read-ok", sig, "%s: %s: no fault was hit (k=%d) but Read failed: %v", mname, fo.name, k, err)
 				}
 				c.Outcome(fi, mode, ra.injected, err != nil, errClass(err))
+			case 14:
+				var err error
+				pmsg := guard(func() { _, err = cff.Read(bytes.NewReader(ref[:k])) })
+				if pmsg != "" {
+					c.Fail("C18.panic", sig+" / "+explore.PanicSignature(pmsg), "%s: %s cut to %d of %d bytes: cff.Read panics: %s", mname, fo.name, k, len(ref), pmsg)
+					return
+				}
+				if k < len(ref) {
+					c.Nontrivial()
+					if err == nil {
+						c.Fail("C18.truncated", sig, "%s: the CFF data of %s truncated to %d of %d bytes was accepted", mname, fo.name, k, len(ref))
+					}
+				} else if err != nil {
+					c.Fail("C18.read-ok", sig, "%s: %s: complete data but cff.Read failed: %v", mname, fo.name, err)
+				}
+				c.Outcome(fi, mode, err != nil, errClass(err))
+			case 15:
+				sr := &seekFaultReader{data: ref, k: k}
+				var err error
+				pmsg := guard(func() { _, err = cff.Read(sr) })
+				if pmsg != "" {
+					c.Fail("C18.panic", sig+" / "+explore.PanicSignature(pmsg), "%s: %s with the source failing from offset %d: cff.Read panics: %s", mname, fo.name, k, pmsg)
+					return
+				}
+				if sr.injected {
+					c.Nontrivial()
+					if err == nil {
+						c.Fail("C18.read-fault", sig, "%s: %s with the source failing from offset %d: a read was answered with the injected error but cff.Read succeeded", mname, fo.name, k)
+					}
+				} else if err != nil {
+					c.Fail("C18.read-ok", sig, "%s: %s: no fault was hit (k=%d) but cff.Read failed: %v", mname, fo.name, k, err)
+				}
+				c.Outcome(fi, mode, sr.injected, err != nil, errClass(err))
 			case 10:
 				pr := &plainReader{data: ref, k: k, fail: true}
 				_, err := sfnt.Read(pr)
